@@ -186,6 +186,8 @@ def value_classes(p, label, v):
     cl.append('number_for_categorical')
   if label in ('lo', 'hi'):
     cl.append('boundary_inside')
+  if label == 'frac':
+    cl.append('non_integral_float_for_integer')
   if label in ('below', 'above', 'nudged', 'frac', 'as_float_above',
                'int_above'):
     cl.append('boundary_outside')
